@@ -76,7 +76,7 @@ theorem front_of_wire_sealed_enc (P : Prims) (hP : P.Lawful) (bs : Nat) (hbs : 0
   rw [b1] at hw
   injection hw with hw
   subst hw
-  exact ⟨b2, orWire_of_codec b2⟩
+  exact ⟨b2, readEnc_of_codec_eof b2⟩
 
 /-- signcryption -/
 theorem front_of_wire_sealed_signcrypt (P : Prims) (hP : P.Lawful) (bs : Nat) (hbs : 0 < bs) (hbs32 : bs + 80 < 2 ^ 32)
@@ -103,7 +103,7 @@ theorem front_of_wire_sealed_signcrypt (P : Prims) (hP : P.Lawful) (bs : Nat) (h
   rw [b1] at hw
   injection hw with hw
   subst hw
-  exact ⟨b2, orWire_of_codec b2⟩
+  exact ⟨b2, readSigncrypt_of_codec_eof b2⟩
 
 /-- attached signatures -/
 theorem front_of_wire_sealed_sig (P : Prims) (hP : P.Lawful) (bs : Nat) (hbs : 0 < bs) (hbs32 : bs < 2 ^ 32)
@@ -117,7 +117,7 @@ theorem front_of_wire_sealed_sig (P : Prims) (hP : P.Lawful) (bs : Nat) (hbs : 0
   rw [b1] at hw
   injection hw with hw
   subst hw
-  exact ⟨b2, orWire_of_codec b2⟩
+  exact ⟨b2, readSig_of_codec_eof b2⟩
 
 /-- detached signatures -/
 theorem front_of_wire_sealed_detached (P : Prims) (hP : P.Lawful) (v : Version) (signer nonce msg out : Bytes)
